@@ -456,7 +456,8 @@ builtin_dirscan(spif_charptr_t param)
                 unsigned long len;
 
                 len = strlen(dp->d_name);
-                if (len < n) {
+                /* The name, its blank and the terminator must fit in what is left. */
+                if (len + 1 < n) {
                     strcat((char *) buff, dp->d_name);
                     strcat((char *) buff, " ");
                     n -= len + 1;
